@@ -393,6 +393,26 @@ def _is_increment(fa, x, attr):
     return False
 
 
+def partition_reads(ck, an, name="S5.partition-reads-do-not-insert"):
+    """The partitions are defaultdicts: `partition[k]` INSERTS k when it is absent, and Transmitter._reset derives an episode's
+    steps from the partitions' keys. Outside _create_partitions a partition is therefore subscripted only with the current
+    step (itself one of those keys); any other key is read with .get(k, default)."""
+    n = 0
+    for f in an.functions():
+        if f.short == "Transmitter._create_partitions":
+            continue
+        fa = an.fa(f)
+        for node in walk_function(f.node):
+            if isinstance(node, ast.Subscript) and isinstance(node.value, ast.Attribute) and node.value.attr in ("_partition_latent", "_partition_nonlatent"):
+                n += 1
+                k = fa.sym.canon(node.slice)
+                ok = isinstance(node.ctx, ast.Load) and k in ("self._current_time", "self._steps[self._step_nr]")
+                ck.check(ok, "ALIAS", name, f.short, f"{f.module.relpath}:{node.lineno}", "the partition is subscripted with the current step only (a key it already has)",
+                         f"`{ast.unparse(node)[:70]}` subscripts a defaultdict partition with {k[:80]}: an absent key is inserted and becomes a step of later episodes (or the partition is written outside _create_partitions)",
+                         construct="partition subscript with a key other than the current step")
+    ck.floor("partition subscripts outside _create_partitions", n, 2)
+
+
 # ------------------------------------------------------------------ _next
 
 def nxt(ck, an):
@@ -510,6 +530,7 @@ def nxt(ck, an):
                  f"no `origin <= t` bound with origin = {ORIGIN} on the history: {agg[:200]}", construct="if origin <= t <= self._current_time")
     ck.check(org, "LIN", "S9.warmup-horizon", subj, fa.loc(n), "origin = current time - warm-up horizon, or the beginning of time", "the history's lower bound is not (self._current_time - self._warmup) if self._warmup else datetime.min",
              construct="origin = (self._current_time - self._warmup) if self._warmup else datetime.min")
+    partition_reads(ck, an)
     own_callers(ck, an, "S2.next-callers", "Transmitter._next", {"TradingEnv.reset", "TradingEnv._process_nonlatent_events"})
     # _reset rewinds the pointer
     fr = an.fa("Transmitter._reset")
